@@ -1,5 +1,6 @@
 import DracoModel.Proto
 import DracoModel.SeqDecoder
+import DracoModel.Spec
 /- op handlers for whole-stream decoding -/
 namespace Draco.Ops
 open Draco Draco.Proto
@@ -22,7 +23,53 @@ def decOp : List String → String
     decResultText bs (decodeGeometry { skip := skipOf skip } { rest := bs })
   | _ => "bad-op"
 
+def splitOn2 (sep : String) (l : List String) : List (List String) :=
+  let rec go (l : List String) (cur : List String) (acc : List (List String)) : List (List String) :=
+    match l with
+    | [] => (cur.reverse :: acc).reverse
+    | t :: rest => if t == sep then go rest [] (cur.reverse :: acc) else go rest (t :: cur) acc
+  go l [] []
+
+def clsOf (s : String) : Spec.MethodClass :=
+  if s == "kd" then .kdTree else if s == "eb" then .edgebreaker else .sequential
+
+def reqOf (s : String) : Spec.QuantReq :=
+  if s == "-" || s.isEmpty then [] else
+    (s.splitOn ",").filterMap fun t =>
+      match t.splitOn ":" with
+      | [u, b] => some (natOf u, natOf b)
+      | _ => none
+
+/-- e2e cls=<seq|kd|eb> req=<uid:bits,…|-> skip=<types|-> hex=<stream> -- <g> -- <impl decode> -- <impl skip decode>
+    -> <model decode> | <model skip decode> | <RoundTripOK on the implementation's outputs> | <C10 skip check> -/
+def e2eOp (args : List String) : String :=
+  match splitOn2 "--" args with
+  | [opts, gT, dT, sT] =>
+    let cls := clsOf ((kv opts "cls").getD "seq")
+    let req := reqOf ((kv opts "req").getD "-")
+    let skipS := (kv opts "skip").getD "-"
+    let bs := bytesOfHex ((kv opts "hex").getD "-")
+    let mdec := decResultText bs (decodeGeometry {} { rest := bs })
+    let mskip := if skipS == "-" then "-" else decResultText bs (decodeGeometry { skip := skipOf skipS } { rest := bs })
+    let geomOf := fun (t : List String) =>
+      match t with
+      | "ok" :: _ :: rest => (Geometry.ofTokens rest).map (·.1)
+      | _ => none
+    let rt :=
+      match Geometry.ofTokens gT, geomOf dT with
+      | some (g, _), some g' =>
+        match geomOf sT with
+        | some gs => Spec.check cls req g g' gs
+        | none => if skipS == "-" then Spec.check cls req g g' g' else "violation: decode with skipped transforms failed"
+      | _, _ => "n/a"
+    let sk :=
+      match geomOf dT, geomOf sT with
+      | some g', some gs => Spec.skipCheck (skipOf skipS) g' gs
+      | _, _ => "n/a"
+    s!"{mdec} | {mskip} | {rt} | {sk}"
+  | _ => "bad-op"
+
 def codecOps : List (String × (List String → String)) :=
-  [("dec", decOp)]
+  [("dec", decOp), ("e2e", e2eOp)]
 
 end Draco.Ops
